@@ -5,7 +5,7 @@ From Coq Require Import List NArith ZArith Bool Arith Lia.
 From Muscle Require Import Gen.Consts Refl.Base Refl.BaseProofs Refl.Tree Refl.TreeProofs Refl.Matcher Refl.MatcherProofs
      Refl.Traverse Refl.TraverseFold Refl.TraverseSpec Refl.Session Refl.Server Refl.ServerProofs Refl.Mirror Refl.MirrorBase
      Refl.MirrorServer Refl.MirrorNotify Refl.MirrorSem Refl.MirrorSteps Refl.MirrorHandlers Refl.MirrorSubscribe Refl.MirrorFetch
-     Refl.MirrorSubJ Refl.MirrorCmd Refl.MirrorFrame Refl.MirrorQuiet.
+     Refl.MirrorSubJ Refl.MirrorCmd Refl.MirrorFrame Refl.MirrorQuiet Refl.MirrorTail.
 Import ListNotations.
 
 Section WorldProofs.
@@ -238,6 +238,200 @@ Proof.
 Qed.
 
 
+(* ------------------------------------------------------------------ the observer unsubscribes inside a BATCH *)
+
+(* what may follow an unsubscribe inside a BATCH of the observer: things that tell the observer nothing about foreign nodes *)
+Definition tail_cmd (c : cmd) : bool :=
+  match c with
+  | CUnsubscribe _ | CSetData _ _ | CRemoveData _ _ | CSetMax _ | CResetMax => true
+  | _ => false
+  end.
+
+Lemma handle_batch_fold : forall l nest sv s ss, get_session sv s = Some ss -> Nat.ltb nest max_batch_nest = true ->
+  handle fx nest sv s (CBatch l) = fold_left (fun s' c => push_all (handle fx (S nest) s' s c)) l sv.
+Proof.
+  intros l nest sv s ss Hss Hlt. cbn [handle]. rewrite Hss, Hlt. clear Hss ss. revert sv.
+  induction l as [|c l IH]; intros sv; cbn [fold_left]; [reflexivity|]. apply IH.
+Qed.
+
+(* one tail command of the observer *)
+Lemma tail_step : forall mir o c nest sv B ss, tail_cmd c = true -> small B -> inv B sv -> pend_ok sv ->
+  get_session sv o = Some ss ->
+  let sv' := push_all (handle fx nest sv o c) in
+  pend_ok sv' /\ inv B sv' /\ (forall q, V mir sv' o q = V mir sv o q)
+  /\ (forall q, own_node ss q = false -> data_at (sv_tree sv') q = data_at (sv_tree sv) q)
+  /\ exists ss', get_session sv' o = Some ss' /\ session_dir ss' = session_dir ss
+                 /\ forall x, In x (all_entries (s_subs ss')) -> In x (all_entries (s_subs ss)).
+Proof.
+  intros mir o c nest sv B ss Ht HB I Hpo Hss sv'.
+  assert (Hdep : nest + cmd_depth c <= max_batch_nest \/ True) by now right.
+  assert (Hfor : forall q, own_node ss q = false -> is_prefix (session_dir ss) q = false).
+  { intros q Hq. destruct (is_prefix (session_dir ss) q) eqn:E; auto. apply own_node_of_prefix in E. congruence. }
+  assert (Hb0 : cmd_budget c = 0) by (destruct c; try discriminate; reflexivity).
+  assert (I1 : inv B (handle fx nest sv o c)).
+  { pose proof (handle_inv fx guard_on c nest sv o B) as Hi. rewrite Hb0, Nat.add_0_r in Hi. now apply Hi. }
+  pose proof (find_session_some _ _ _ Hss) as [_ Hid].
+  (* the handler itself *)
+  assert (Hh : pend_ok (handle fx nest sv o c) /\ (forall q, V mir (handle fx nest sv o c) o q = V mir sv o q)
+               /\ (forall q, own_node ss q = false -> data_at (sv_tree (handle fx nest sv o c)) q = data_at (sv_tree sv) q)
+               /\ exists ss', get_session (handle fx nest sv o c) o = Some ss' /\ session_dir ss' = session_dir ss
+                              /\ forall x, In x (all_entries (s_subs ss')) -> In x (all_entries (s_subs ss))).
+  { destruct c as [flags items|qq keys|qs ks|subs|n| |gk|bl]; try discriminate; cbn [handle]; rewrite Hss.
+    - (* SETDATA *)
+      destruct (set_data_items_frame items sv o flags Hpo) as [Hp1 Hs1].
+      destruct (own_set_data_items mir o items sv flags (session_dir ss) Hpo) as [HV Hd]; [intros x Hx; congruence|].
+      split; [exact Hp1|split; [exact HV|split; [intros q Hq; apply Hd; now apply Hfor|]]].
+      destruct (get_session_sess_fwd sv _ o ss Hs1 Hss) as [ss' [Ha [Hb Hc]]]. exists ss'. split; [auto|split; [auto|]].
+      intros x Hx. now rewrite <- Hb.
+    - (* REMOVEDATA *)
+      destruct (do_remove_data_frame fx sv ss keys qq Hpo) as [Hp1 Hs1].
+      destruct (own_do_remove_data fx mir o sv ss keys qq Hpo Hid) as [HV Hd].
+      split; [exact Hp1|split; [exact HV|split; [intros q Hq; apply Hd; now apply Hfor|]]].
+      destruct (get_session_sess_fwd sv _ o ss Hs1 Hss) as [ss' [Ha [Hb Hc]]]. exists ss'. split; [auto|split; [auto|]].
+      intros x Hx. now rewrite <- Hb.
+    - (* unsubscribe *)
+      destruct (unsub_fold_V mir subs sv o) as [HV Hd].
+      destruct (unsubscribe_fold_track fx subs sv o Hpo) as [Hp1 Htr].
+      split; [exact Hp1|split; [exact HV|split; [intros q _; apply Hd|]]].
+      destruct (Htr o ss Hss) as [ss' [Ha [Hb Hc]]]. rewrite N.eqb_refl in Hc. exists ss'. split; [auto|split; [auto|]].
+      intros x Hx. rewrite Hc in Hx. now apply unsub_entries_subset in Hx.
+    - (* max update items *)
+      split; [apply pend_ok_upd_keep; [reflexivity|auto]|]. split; [intros q; apply V_upd_keep; intros x; auto|].
+      split; [intros q _; reflexivity|].
+      destruct (get_session_core_some sv (upd_session sv o (fun x => set_max x (u32_of_Z n))) o ss) as [ss' [Ha Hb]]; auto.
+      { apply upd_session_core. reflexivity. }
+      exists ss'. split; [auto|split]. 
+      + rewrite get_session_upd in Ha by (intros x; reflexivity). rewrite N.eqb_refl, Hss in Ha. cbn in Ha. inversion Ha. reflexivity.
+      + intros x Hx. now rewrite <- Hb.
+    - split; [apply pend_ok_upd_keep; [reflexivity|auto]|]. split; [intros q; apply V_upd_keep; intros x; auto|].
+      split; [intros q _; reflexivity|].
+      destruct (get_session_core_some sv (upd_session sv o (fun x => set_max x default_max_items)) o ss) as [ss' [Ha Hb]]; auto.
+      { apply upd_session_core. reflexivity. }
+      exists ss'. split; [auto|split].
+      + rewrite get_session_upd in Ha by (intros x; reflexivity). rewrite N.eqb_refl, Hss in Ha. cbn in Ha. inversion Ha. reflexivity.
+      + intros x Hx. now rewrite <- Hb. }
+  destruct Hh as [Hp1 [HV1 [Hd1 [ss1 [Ha [Hb Hc]]]]]].
+  split; [now apply pend_ok_push_all|]. split; [eapply inv_same_core; [apply push_all_core|exact I1]|].
+  split; [intros q; unfold sv'; now rewrite V_push_all|].
+  split; [intros q Hq; unfold sv'; destruct (push_all_core (handle fx nest sv o c)) as [Htr _]; rewrite Htr; now apply Hd1|].
+  destruct (get_session_sess_fwd _ sv' o ss1 (same_core_sess _ _ (push_all_core _)) Ha) as [ss2 [Hd [He Hf]]].
+  exists ss2. split; [exact Hd|split; [congruence|]]. intros x Hx. apply Hc. now rewrite <- He.
+Qed.
+
+Lemma tail_fold : forall mir o l2 nest sv B ss, forallb tail_cmd l2 = true -> small B -> inv B sv -> pend_ok sv ->
+  get_session sv o = Some ss ->
+  let sv' := fold_left (fun s' c => push_all (handle fx nest s' o c)) l2 sv in
+  pend_ok sv' /\ inv B sv' /\ (forall q, V mir sv' o q = V mir sv o q)
+  /\ (forall q, own_node ss q = false -> data_at (sv_tree sv') q = data_at (sv_tree sv) q)
+  /\ exists ss', get_session sv' o = Some ss' /\ session_dir ss' = session_dir ss
+                 /\ forall x, In x (all_entries (s_subs ss')) -> In x (all_entries (s_subs ss)).
+Proof.
+  intros mir o. induction l2 as [|c l2 IH]; intros nest sv B ss Ht HB I Hpo Hss; cbn [fold_left].
+  - split; [auto|split; [auto|split; [auto|split; [auto|]]]]. exists ss. auto.
+  - cbn [forallb] in Ht. apply andb_true_iff in Ht as [Ht1 Ht2].
+    destruct (tail_step mir o c nest sv B ss Ht1 HB I Hpo Hss) as [Hp1 [I1 [HV1 [Hd1 [ss1 [Ha [Hb Hc]]]]]]].
+    destruct (IH nest _ B ss1 Ht2 HB I1 Hp1 Ha) as [Hp2 [I2 [HV2 [Hd2 [ss2 [Hd [He Hf]]]]]]].
+    split; [exact Hp2|split; [exact I2|split; [intros q; now rewrite HV2|split]]].
+    + intros q Hq. rewrite Hd2; [now apply Hd1|]. now rewrite (own_node_dir ss1 ss q Hb).
+    + exists ss2. split; [exact Hd|split; [congruence|auto]].
+Qed.
+
+(* the client's pruning at the end: J held at some earlier point of the command (virtual mirror, foreign data unchanged
+   since, subscriptions only dropped since) *)
+Lemma prune_J : forall Bm B1 mir svm sv1 o ssm ss1, inv Bm svm -> inv B1 sv1 -> settled sv1 -> mirror_ok mir ->
+  get_session svm o = Some ssm -> get_session sv1 o = Some ss1 -> session_dir ss1 = session_dir ssm ->
+  (forall q, V mir sv1 o q = V mir svm o q) ->
+  (forall q, own_node ssm q = false -> data_at (sv_tree sv1) q = data_at (sv_tree svm) q) ->
+  (forall x, In x (all_entries (s_subs ss1)) -> In x (all_entries (s_subs ssm))) ->
+  J mir svm o ->
+  J (filter (fun pv => matches_path (s_subs ss1) (fst pv) (Some (snd pv))) (apply_all mir (s_out ss1))) (clear_outs sv1) o.
+Proof.
+  intros Bm B1 mir svm sv1 o ssm ss1 Im I1 Hset Hmok Hssm Hss1 Hdir HV Hd Hsub HJ.
+  assert (Hin1 : In ss1 (sv_sessions sv1)) by (apply find_session_some in Hss1; tauto).
+  pose proof (proj2 Hset ss1 Hin1) as Hnp1.
+  destruct (inv_subs _ _ _ I1 ss1 Hin1) as [[Hw1 _] _].
+  assert (Hinm : In ssm (sv_sessions svm)) by (apply find_session_some in Hssm; tauto).
+  destruct (inv_subs _ _ _ Im ssm Hinm) as [[Hwm _] _].
+  intros ss' Hss' q Hown.
+  rewrite get_session_clear, Hss1 in Hss'. cbn in Hss'. inversion Hss'; subst ss'. clear Hss'.
+  assert (Hownm : own_node ssm q = false).
+  { rewrite <- Hown. apply own_node_dir. unfold session_dir in *. cbn [clear_out s_host s_name]. congruence. }
+  unfold V. rewrite get_session_clear, Hss1. cbn [option_map]. unfold vm. cbn [clear_out s_out s_pending]. rewrite Hnp1.
+  cbn [apply_all fold_left]. f_equal.
+  rewrite mirror_get_filter by (now apply apply_all_ok). cbn [fst snd].
+  pose proof (V_settled mir sv1 o ss1 q Hss1 Hnp1) as Ha. rewrite HV, (HJ ssm Hssm q Hownm) in Ha. inversion Ha as [Ha']. clear Ha.
+  rewrite !expected_exp_with. cbn [clear_out s_subs sv_tree clear_outs].
+  fold (data_at (sv_tree svm) q). fold (data_at (sv_tree sv1) q). rewrite (Hd q Hownm).
+  destruct (data_at (sv_tree svm) q) as [v|]; [|reflexivity].
+  unfold exp_with. destruct (matches_path (s_subs ssm) q (Some v)) eqn:E0.
+  - reflexivity.
+  - destruct (matches_path (s_subs ss1) q (Some v)) eqn:E1; auto.
+    apply matches_path_spec in E1 as [e [He [H1 H2]]]; auto.
+    assert (matches_path (s_subs ssm) q (Some v) = true); [|congruence].
+    apply matches_path_spec; auto. exists e. auto.
+Qed.
+
+Lemma batch_budget_app : forall l1 l2, cmd_budget (CBatch (l1 ++ l2)) = cmd_budget (CBatch l1) + cmd_budget (CBatch l2).
+Proof. intros l1 l2. cbn [cmd_budget]. induction l1 as [|c l1 IH]; cbn [app]; [reflexivity|]. rewrite IH. lia. Qed.
+
+Lemma batch_depth_app_l : forall l1 l2, cmd_depth (CBatch l1) <= cmd_depth (CBatch (l1 ++ l2)).
+Proof.
+  intros l1 l2. cbn [cmd_depth]. apply le_n_S. induction l1 as [|c l1 IH]; cbn [app]; [lia|]. lia.
+Qed.
+
+Lemma batch_subs_ok_app_l : forall l1 l2, cmd_subs_ok (CBatch (l1 ++ l2)) -> cmd_subs_ok (CBatch l1).
+Proof.
+  intros l1 l2. cbn [cmd_subs_ok]. induction l1 as [|c l1 IH]; cbn [app]; [intros _; exact I|]. intros [H1 H2]. split; [exact H1|now apply IH].
+Qed.
+
+(* a BATCH of the observer: commands without unsubscribe, then unsubscribes and other tail commands; the client prunes
+   once, after the whole BATCH *)
+Lemma batch_tail_world_J : forall B mir sv0 o ss0 l1 l2, small (B + cmd_budget (CBatch (l1 ++ l2))) -> inv B sv0 -> quiet sv0 ->
+  get_session sv0 o = Some ss0 -> mirror_ok mir -> J mir sv0 o ->
+  cmd_loud_for true (CBatch (l1 ++ l2)) = true -> cmd_depth (CBatch (l1 ++ l2)) <= max_batch_nest ->
+  cmd_subs_ok (CBatch (l1 ++ l2)) -> forallb cmd_nounsub l1 = true -> forallb tail_cmd l2 = true ->
+  cmd_covered (s_subs ss0) (CBatch l1) ->
+  let sv1 := push_all (handle fx 0 sv0 o (CBatch (l1 ++ l2))) in
+  forall ss1, get_session sv1 o = Some ss1 ->
+  J (filter (fun pv => matches_path (s_subs ss1) (fst pv) (Some (snd pv))) (apply_all mir (s_out ss1))) (clear_outs sv1) o.
+Proof.
+  intros B mir sv0 o ss0 l1 l2 HB I Hq Hss0 Hmok HJ Hloud Hdep Hsok Hnu Htl Hcov sv1 ss1 Hss1.
+  pose proof (quiet_pend_ok sv0 (quiet_settled sv0 Hq)) as Hpo0.
+  assert (Hlt : Nat.ltb 0 max_batch_nest = true) by (apply Nat.ltb_lt; cbn [cmd_depth] in Hdep; lia).
+  assert (Hin0 : In ss0 (sv_sessions sv0)) by (apply find_session_some in Hss0; tauto).
+  destruct (proj2 Hq ss0 Hin0) as [Hnp0 _].
+  unfold sv1 in *. clear sv1.
+  rewrite (handle_batch_fold (l1 ++ l2) 0 sv0 o ss0 Hss0 Hlt), fold_left_app in *.
+  rewrite <- (handle_batch_fold l1 0 sv0 o ss0 Hss0 Hlt) in *.
+  set (svm := handle fx 0 sv0 o (CBatch l1)) in *.
+  pose proof (batch_budget_app l1 l2) as Hbud.
+  assert (HB1 : small (B + cmd_budget (CBatch l1))) by (eapply small_le; [|exact HB]; lia).
+  pose proof (batch_depth_app_l l1 l2) as Hd1.
+  assert (Hl1 : cmd_loud_for true (CBatch l1) = true).
+  { cbn [cmd_loud_for] in *. rewrite forallb_app in Hloud. now apply andb_true_iff in Hloud as [H1 _]. }
+  destruct (handle_J fx guard_on overlap_on push_on mir o (CBatch l1) 0 sv0 o B) as [HJm Hpom]; auto.
+  { left. now rewrite N.eqb_refl. }
+  { cbn [Nat.add]. lia. }
+  { intros _. split; [exact Hnu|split; [now apply (batch_subs_ok_app_l l1 l2)|]].
+    intros ss Hss. assert (ss = ss0) by congruence. subst ss. split; auto. }
+  fold svm in HJm, Hpom.
+  assert (Im : inv (B + cmd_budget (CBatch l1)) svm) by (now apply handle_inv).
+  destruct (handle_track fx (CBatch l1) 0 sv0 o Hpo0) as [_ Htr]; [cbn [Nat.add]; lia|]. fold svm in Htr.
+  destruct (Htr o ss0 Hss0) as [ssm [Hssm [Hdirm _]]].
+  destruct (tail_fold mir o l2 1 svm (B + cmd_budget (CBatch l1)) ssm Htl HB1 Im Hpom Hssm)
+    as [Hpoe [Ie [HVe [Hde [sse [Hsse [Hdire Hsube]]]]]]].
+  set (sve := fold_left (fun s' c => push_all (handle fx 1 s' o c)) l2 svm) in *.
+  assert (Hset : settled (push_all sve)) by (now apply settled_push_all).
+  destruct (get_session_sess sve (push_all sve) o ss1 (same_core_sess _ _ (push_all_core sve)) Hss1) as [sse' [Hsse' [Hsub1 Hdir1]]].
+  assert (sse' = sse) by congruence. subst sse'.
+  apply (prune_J (B + cmd_budget (CBatch l1)) (B + cmd_budget (CBatch l1)) mir svm (push_all sve) o ssm ss1); auto.
+  - eapply inv_same_core; [apply push_all_core|exact Ie].
+  - congruence.
+  - intros q. now rewrite V_push_all.
+  - intros q Hown. destruct (push_all_core sve) as [Ht _]. rewrite Ht. now apply Hde.
+  - intros x Hx. apply Hsube. now rewrite Hsub1.
+Qed.
+
 (* ------------------------------------------------------------------ the world invariant *)
 
 Record winv (B : nat) (w : world) : Prop := mkW {
@@ -299,13 +493,19 @@ Definition ev_ok (o : sid) (w : world) (ev : event) : Prop :=
   | _ => True
   end.
 
-(* what the observer itself may send in the state [w]: commands without unsubscribe whose SUBSCRIBE: field lists are well
-   formed and whose explicit GETDATA keys are subscriptions it holds at that moment; or an unsubscribe as a Message of its own *)
+(* what the observer itself may send in the state [w]: well-formed SUBSCRIBE: field lists, and
+   - a command without unsubscribe whose explicit GETDATA keys are subscriptions it holds at that moment, or
+   - an unsubscribe as a Message of its own, or
+   - a BATCH of such commands followed by unsubscribes (and own SETDATA / REMOVEDATA / max-items): once it has
+     unsubscribed inside a BATCH it subscribes / fetches no more in that BATCH *)
 Definition ev_clean (o : sid) (w : world) (ev : event) : Prop :=
   match ev with
   | ECmd b c => b = o -> cmd_subs_ok c /\
                 ((cmd_nounsub c = true /\ forall ss, get_session (w_srv w) o = Some ss -> cmd_covered (s_subs ss) c)
-                 \/ exists subs, c = CUnsubscribe subs)
+                 \/ (exists subs, c = CUnsubscribe subs)
+                 \/ (exists l1 l2, c = CBatch (l1 ++ l2) /\ snd (client_cmd empty_matcher c) = true /\
+                                   forallb cmd_nounsub l1 = true /\ forallb tail_cmd l2 = true /\
+                                   forall ss, get_session (w_srv w) o = Some ss -> cmd_covered (s_subs ss) (CBatch l1)))
   | _ => True
   end.
 
@@ -496,14 +696,20 @@ Proof.
       destruct (N.eqb (c_id c) b) eqn:Eb.
       * (* the observer's own command: it must be its unsubscribe *)
         apply N.eqb_eq in Eb. assert (Ebo : b = o) by congruence.
-        destruct (Hclean Ebo) as [_ [Hpl|[subs Hun]]].
+        destruct (Hclean Ebo) as [Hsok [Hpl|[[subs Hun]|[l1 [l2 [Hun [_ [Hnu [Htl Hcov]]]]]]]]].
         { rewrite (nounsub_no_unsub c0 empty_matcher (proj1 Hpl)) in Hflag. discriminate. }
+        { subst c0. destruct (Hhas1 c H6) as [ss1 [Hss1 Hsub1]].
+          destruct (Hhas c H6) as [ss0 [Hss0 Hsub0]].
+          unfold prune, deliver. rewrite Hupd_id, Hss1. cbn [c_mirror c_subs c_id]. rewrite Hupd_mir, Hsub1.
+          rewrite Hid in Hss0, Hss1. unfold sv1, hd in *. rewrite Ebo in *.
+          apply (unsub_world_J B (c_mirror c) (w_srv w) o ss0 subs); auto;
+            try (cbn [cmd_budget] in HB; rewrite Nat.add_0_r in HB; exact HB); try (apply HJ; auto). }
         subst c0. destruct (Hhas1 c H6) as [ss1 [Hss1 Hsub1]].
         destruct (Hhas c H6) as [ss0 [Hss0 Hsub0]].
         unfold prune, deliver. rewrite Hupd_id, Hss1. cbn [c_mirror c_subs c_id]. rewrite Hupd_mir, Hsub1.
         rewrite Hid in Hss0, Hss1. unfold sv1, hd in *. rewrite Ebo in *.
-        apply (unsub_world_J B (c_mirror c) (w_srv w) o ss0 subs); auto;
-          try (cbn [cmd_budget] in HB; rewrite Nat.add_0_r in HB; exact HB); try (apply HJ; auto).
+        apply (batch_tail_world_J B (c_mirror c) (w_srv w) o ss0 l1 l2); auto; try (apply HJ; auto).
+        destruct Hloud as [Hl|[Hne _]]; [|congruence]. now rewrite N.eqb_refl in Hl.
       * (* somebody else's client is pruned, not this one *)
         apply N.eqb_neq in Eb.
         assert (Hne : b = o -> cmd_nounsub c0 = true /\ forall ss, get_session (w_srv w) o = Some ss -> cmd_covered (s_subs ss) c0) by (intros E; congruence).
@@ -512,7 +718,9 @@ Proof.
   - split; [exact HW1|].
     apply finish_wJ; auto. intros c' Hc' Hid. apply in_map_iff in Hc' as [c [H1 H2]]. subst c'.
     rewrite Hupd_id in Hid. rewrite Hupd_mir. apply HJ1; auto.
-    intros E. destruct (Hclean E) as [_ [Hpl|[subs Hun]]]; auto. subst c0. cbn in Hflag. discriminate.
+    intros E. destruct (Hclean E) as [_ [Hpl|[[subs Hun]|[l1 [l2 [Hun [Hfl _]]]]]]]; auto.
+    + subst c0. cbn in Hflag. discriminate.
+    + congruence.
 Qed.
 
 
